@@ -10,6 +10,8 @@ import Redress.Monitors
 
 open Std.Do
 
+set_option linter.unusedSimpArgs false
+
 namespace Redress.Props.C13
 open Redress Redress.Retry Redress.Mon Redress.Mon.C13
 
@@ -211,6 +213,70 @@ theorem abortOutcome_org (cfg : Cfg) (tl : Bool) (a : Nat) :
     ⦃fun _ => ⌜True⌝⦄ abortOutcome cfg tl a ⦃emitPost⦄ := by
   mvcgen [abortOutcome, buildOutcome, getRS, elapsed]
   org_close
+
+/-! #### policy level -/
+open Policy
+
+/-- whatever escapes is `.stuck` (model-only) or was raised by a callback other than the operation -/
+abbrev orgPostS : PostCond α (.except Exn (.arg World .pure)) :=
+  post⟨fun _ _ => ⌜True⌝, fun e w => ⌜e = .stuck ∨ Raised w.trace e⌝⟩
+
+abbrev neverPost : PostCond α (.except Exn (.arg World .pure)) :=
+  post⟨fun _ _ => ⌜True⌝, fun _ _ => ⌜False⌝⟩
+
+theorem emitBreakerEvent_org (cfg : Cfg) (ev : Option Event) (st : CState) (k : Option EClass) :
+    ⦃fun _ => ⌜True⌝⦄ emitBreakerEvent cfg ev st k ⦃orgPostS⦄ := by
+  mvcgen [emitBreakerEvent, swallowException]
+  org_close
+
+attribute [local spec] emitBreakerEvent_org
+
+theorem recordSuccess_org (cfg : Cfg) : ⦃fun _ => ⌜True⌝⦄ Policy.recordSuccess cfg ⦃orgPostS⦄ := by
+  mvcgen [Policy.recordSuccess]
+  org_close
+
+theorem recordFailure_org (cfg : Cfg) (k : EClass) :
+    ⦃fun _ => ⌜True⌝⦄ Policy.recordFailure cfg k ⦃orgPostS⦄ := by
+  mvcgen [Policy.recordFailure]
+  org_close
+
+theorem recordCancel_never (cfg : Cfg) : ⦃fun _ => ⌜True⌝⦄ Policy.recordCancel cfg ⦃neverPost⦄ := by
+  mvcgen [Policy.recordCancel]
+
+attribute [local spec] recordSuccess_org recordFailure_org recordCancel_never
+
+theorem ensureSettled_never (cfg : Cfg) : ⦃fun _ => ⌜True⌝⦄ ensureSettled cfg ⦃neverPost⦄ := by
+  mvcgen [ensureSettled]
+
+theorem handleExhaustedCall_org (cfg : Cfg) (e : Exn) :
+    ⦃fun _ => ⌜True⌝⦄ handleExhaustedCall cfg e ⦃orgPostS⦄ := by
+  mvcgen [handleExhaustedCall]
+  org_close
+
+theorem callClassifier_org (e : Exn) : ⦃fun _ => ⌜True⌝⦄ callClassifier e ⦃orgPostS⦄ := by
+  mvcgen [callClassifier]
+  org_close
+
+attribute [local spec] callClassifier_org
+
+theorem noRetryEndHook_org (cfg : Cfg) (exc : Option Exn) (r : Option Nat) (d : AttemptDecision)
+    (stop : Option StopReason) (cause : Option Cause) :
+    ⦃fun _ => ⌜True⌝⦄ noRetryEndHook cfg exc r d stop cause ⦃orgPostS⦄ := by
+  mvcgen [noRetryEndHook, xElapsed]
+  org_close
+
+attribute [local spec] noRetryEndHook_org
+
+theorem handleExceptionCall_org (cfg : Cfg) (e : Exn) (b : Bool) :
+    ⦃fun _ => ⌜True⌝⦄ handleExceptionCall cfg e b ⦃orgPostS⦄ := by
+  mvcgen [handleExceptionCall, classifyForBreaker]
+  org_close
+
+theorem handleAbortCall_org (cfg : Cfg) (e : Exn) :
+    ⦃fun _ => ⌜True⌝⦄ handleAbortCall cfg e ⦃orgPostS⦄ := by
+  mvcgen [handleAbortCall]
+  org_close
+
 
 end origin
 
@@ -589,5 +655,1291 @@ theorem callSleeper_spec (cfg : Cfg) (s : Nat) (m : St) (hm : Ready cfg m) :
   mvcgen [callSleeper, ask_cur]
   c13
   all_goals (intros; refine finS_of_sleeper hm ?_; simp_all +zetaDelta [view, viewOf_eq_some, step_sleeper_raise])
+
+/-! ### procedures that do not move the view but are not footprint-leaves -/
+
+macro "close_v" : tactic => `(tactic| all_goals (
+  (try subst_vars) <;> (try intros) <;>
+  first
+    | assumption
+    | rfl
+    | (simp_all +zetaDelta [view]; done)
+    | skip))
+
+section inertProcs
+variable (v : Option St) (cfg : Cfg) (tl : Bool)
+
+theorem budgetConsume_v : ⦃fun w => ⌜view cfg w = v⌝⦄ budgetConsume cfg ⦃same cfg v⦄ := by
+  have hf : ∀ w0, ⦃fun w => ⌜Foot inertK w0 w⌝⦄ budgetConsume cfg ⦃footPost inertK w0⦄ := by
+    intro w0
+    mvcgen [budgetConsume]
+    all_goals (try assumption)
+    all_goals (rename_i h; exact Foot.trans h (Foot.internal _ _ _ _ _ _ rfl))
+  exact view_of_foot (view cfg) hf (view_foot cfg) v
+
+attribute [local spec] budgetConsume_v
+
+theorem stopWith_v (s : StopReason) (ev : Event) (a : Nat) (k : EClass) (e : Option Exn) (c : Cause) :
+    ⦃fun w => ⌜view cfg w = v⌝⦄ stopWith cfg tl s ev a k e c ⦃same cfg v⦄ := by
+  mvcgen [stopWith]
+  close_v
+
+attribute [local spec] stopWith_v
+
+theorem grantRetry_v (c : Classification) (a : Nat) (cause : Cause) (e : Option Exn) (key : SKey)
+    (kind : SKind) (rem : Nat) :
+    ⦃fun w => ⌜view cfg w = v⌝⦄ grantRetry cfg tl c a cause e key kind rem ⦃same cfg v⦄ := by
+  mvcgen [grantRetry, getRS, modifyRS]
+  close_v
+
+attribute [local spec] grantRetry_v
+
+theorem handleFailure2_v (c : Classification) (a : Nat) (cause : Cause) (e : Option Exn) :
+    ⦃fun w => ⌜view cfg w = v⌝⦄ handleFailure2 cfg tl c a cause e ⦃same cfg v⦄ := by
+  mvcgen [handleFailure2, elapsed, modifyRS]
+  close_v
+
+attribute [local spec] handleFailure2_v
+
+theorem handleUnknown_v (c : Classification) (a : Nat) (cause : Cause) (e : Option Exn) :
+    ⦃fun w => ⌜view cfg w = v⌝⦄ handleUnknown cfg tl c a cause e ⦃same cfg v⦄ := by
+  mvcgen [handleUnknown, getRS, modifyRS]
+  close_v
+
+attribute [local spec] handleUnknown_v
+
+theorem handleFailure1_v (c : Classification) (a : Nat) (cause : Cause) (e : Option Exn) :
+    ⦃fun w => ⌜view cfg w = v⌝⦄ handleFailure1 cfg tl c a cause e ⦃same cfg v⦄ := by
+  mvcgen [handleFailure1, getRS]
+  close_v
+
+attribute [local spec] handleFailure1_v
+
+theorem handleFailure_v (c : Classification) (a : Nat) (cause : Cause) (e : Option Exn) (r : Option Nat) :
+    ⦃fun w => ⌜view cfg w = v⌝⦄ handleFailure cfg tl c a cause e r ⦃same cfg v⦄ := by
+  mvcgen [handleFailure, Retry.recordFailure, modifyRS]
+  close_v
+
+attribute [local spec] handleFailure_v
+
+theorem handleException_v (e : Exn) (a : Nat) :
+    ⦃fun w => ⌜view cfg w = v⌝⦄ handleException cfg tl e a ⦃same cfg v⦄ := by
+  mvcgen [handleException]
+  close_v
+
+theorem finalizeAttempt_v (a : Nat) (d : Decision) (act : Option SleepDecision)
+    (cls : Option Classification) (e : Option Exn) (r : Option Nat) (c : Option Cause) :
+    ⦃fun w => ⌜view cfg w = v⌝⦄ finalizeAttempt cfg tl a d act cls e r c ⦃same cfg v⦄ := by
+  mvcgen [finalizeAttempt, getRS, elapsed]
+  close_v
+
+end inertProcs
+
+attribute [local spec] budgetConsume_v stopWith_v grantRetry_v handleFailure2_v handleUnknown_v
+  handleFailure1_v handleFailure_v handleException_v finalizeAttempt_v
+
+/-! ### the phases as predicates on worlds -/
+
+def LiveW (cfg : Cfg) (w : World) : Prop := Live (cur cfg w.trace)
+def ReadyW (cfg : Cfg) (w : World) : Prop := Ready cfg (cur cfg w.trace)
+/-- no cancellation, nothing wrong (aborted or not) -/
+def QuietW (cfg : Cfg) (w : World) : Prop :=
+  (cur cfg w.trace).cancelled = none ∧ (cur cfg w.trace).bad = false
+
+theorem live_iff {m : St} : Live m ↔ m.aborted = false ∧ m.cancelled = none ∧ m.bad = false :=
+  ⟨fun h => ⟨h.aborted, h.cancelled, h.bad⟩, fun h => ⟨h.1, h.2.1, h.2.2⟩⟩
+
+theorem ready_iff {cfg : Cfg} {m : St} : Ready cfg m ↔
+    m.aborted = false ∧ m.cancelled = none ∧ m.bad = false ∧ (cfg.abortIf = true → m.polled = true) :=
+  ⟨fun h => ⟨h.aborted, h.cancelled, h.bad, h.polled⟩, fun h => ⟨⟨h.1, h.2.1, h.2.2.1⟩, h.2.2.2⟩⟩
+
+theorem checkAbort_w (cfg : Cfg) (tl : Bool) (a : Nat) :
+    ⦃fun w => ⌜LiveW cfg w⌝⦄ checkAbort cfg tl a
+    ⦃post⟨fun _ w => ⌜ReadyW cfg w⌝, fun e w => ⌜FinS cfg e w⌝⟩⦄ := by
+  apply triple_of_run
+  intro w hw
+  have := adequacy (checkAbort_spec cfg tl a _ hw) w (view_eq_some.mpr ⟨rfl, hw.cancelled⟩)
+  split <;> simp_all
+  have h := (view_eq_some.mp this).1
+  unfold ReadyW
+  rw [h]
+  exact hw.pollOk
+
+theorem invokeOp_w (cfg : Cfg) (a : Nat) :
+    ⦃fun w => ⌜ReadyW cfg w⌝⦄ invokeOp a
+    ⦃post⟨fun _ w => ⌜LiveW cfg w⌝, fun e w => ⌜FinS cfg e w⌝⟩⦄ := by
+  apply triple_of_run
+  intro w hw
+  have := adequacy (invokeOp_spec cfg a _ hw) w (view_eq_some.mpr ⟨rfl, hw.cancelled⟩)
+  split <;> simp_all
+  · have h := (view_eq_some.mp this).1
+    unfold LiveW
+    rw [h]
+    exact hw.afterOp
+  · exact this.toFinS
+
+theorem callSleeper_w (cfg : Cfg) (s : Nat) :
+    ⦃fun w => ⌜ReadyW cfg w⌝⦄ callSleeper cfg s
+    ⦃post⟨fun _ w => ⌜LiveW cfg w⌝, fun e w => ⌜FinS cfg e w⌝⟩⦄ := by
+  apply triple_of_run
+  intro w hw
+  have := adequacy (callSleeper_spec cfg s _ hw) w (view_eq_some.mpr ⟨rfl, hw.cancelled⟩)
+  split <;> simp_all
+  have h := (view_eq_some.mp this).1
+  unfold LiveW
+  rw [h]
+  exact hw.afterOp
+
+/-! ### the retry loop, `call` flavour -/
+
+theorem cancelled_none_of {cfg : Cfg} {e : Exn} {w : World}
+    (h : ∀ c, (cur cfg w.trace).cancelled = some c → e = c ∧ c.isCancelKind = true)
+    (he : e.isCancelKind = false) : (cur cfg w.trace).cancelled = none := by
+  cases hc : (cur cfg w.trace).cancelled with
+  | none => rfl
+  | some c =>
+    obtain ⟨rfl, h2⟩ := h c hc
+    simp_all
+
+theorem isAbort_not_cancelKind {e : Exn} (h : e.isAbort = true) : e.isCancelKind = false := by
+  cases e <;> simp_all [Exn.isCancelKind, Exn.isAbort]
+
+theorem isException_not_cancelKind {e : Exn} (h : e.isException = true) : e.isCancelKind = false := by
+  cases e <;> simp_all [Exn.isCancelKind, Exn.isException]
+
+theorem isExhausted_not_cancelKind {e : Exn} (h : e.isExhausted = true) : e.isCancelKind = false := by
+  cases e <;> simp_all [Exn.isCancelKind, Exn.isExhausted]
+
+/-- `Fin` as a hypothesis: with the consequences `simp_all` cannot find by itself -/
+theorem fin_iff_h {cfg : Cfg} {e : Exn} {w : World} : Fin cfg e w ↔
+    ((cur cfg w.trace).bad = false ∧
+    (∀ c, (cur cfg w.trace).cancelled = some c → e = c ∧ c.isCancelKind = true) ∧
+    ((cur cfg w.trace).aborted = true → (cur cfg w.trace).cancelled = none → Org e w)) ∧
+    (e.isAbort = true → (cur cfg w.trace).cancelled = none) ∧
+    (e.isException = true → (cur cfg w.trace).cancelled = none) ∧
+    (e.isExhausted = true → (cur cfg w.trace).cancelled = none) := by
+  rw [fin_iff]
+  constructor
+  · intro h
+    exact ⟨h, fun ha => cancelled_none_of h.2.1 (isAbort_not_cancelKind ha),
+      fun ha => cancelled_none_of h.2.1 (isException_not_cancelKind ha),
+      fun ha => cancelled_none_of h.2.1 (isExhausted_not_cancelKind ha)⟩
+  · exact fun h => h.1
+
+theorem finS_iff_h {cfg : Cfg} {e : Exn} {w : World} : FinS cfg e w ↔
+    ((cur cfg w.trace).bad = false ∧
+    (∀ c, (cur cfg w.trace).cancelled = some c → e = c ∧ c.isCancelKind = true) ∧
+    ((cur cfg w.trace).aborted = true → (cur cfg w.trace).cancelled = none → Org e w) ∧
+    ((cur cfg w.trace).aborted = true → (cur cfg w.trace).cancelled = none →
+      e.isAbort = true ∨ e.isException = false)) ∧
+    (e.isAbort = true → (cur cfg w.trace).cancelled = none) ∧
+    (e.isException = true → (cur cfg w.trace).cancelled = none) ∧
+    (e.isExhausted = true → (cur cfg w.trace).cancelled = none) := by
+  rw [finS_iff]
+  constructor
+  · intro h
+    exact ⟨h, fun ha => cancelled_none_of h.2.1 (isAbort_not_cancelKind ha),
+      fun ha => cancelled_none_of h.2.1 (isException_not_cancelKind ha),
+      fun ha => cancelled_none_of h.2.1 (isExhausted_not_cancelKind ha)⟩
+  · exact fun h => h.1
+
+/-- normalise everything to statements about monitor states and let `simp_all` (then `grind`) do
+    the rest -/
+macro "c13w" : tactic => `(tactic| all_goals (
+  first
+    | ((try subst_vars) <;> (try intros) <;> (try simp only [finS_iff, fin_iff]) <;>
+       (try simp only [view, LiveW, ReadyW, QuietW, live_iff, ready_iff, finS_iff_h, fin_iff_h] at *) <;>
+       (simp_all +zetaDelta [viewOf_eq_some, viewOf_of_none, Org, Exn.isAbort, Exn.isException]; done))
+    | ((try subst_vars) <;> (try intros) <;> (try simp only [finS_iff, fin_iff]) <;>
+       (try simp only [view, LiveW, ReadyW, QuietW, live_iff, ready_iff, finS_iff_h, fin_iff_h] at *) <;>
+       (try simp_all +zetaDelta [viewOf_eq_some, viewOf_of_none, Org, Exn.isAbort, Exn.isException]) <;>
+       grind)
+    | skip))
+
+attribute [local spec] checkAbort_w invokeOp_w callSleeper_w
+
+theorem sleepAction_spec (cfg : Cfg) (tl : Bool) (a s : Nat) (ctx : BackoffCtx) :
+    ⦃fun w => ⌜ReadyW cfg w⌝⦄ sleepAction cfg tl a s ctx
+    ⦃post⟨fun _ w => ⌜LiveW cfg w⌝, fun e w => ⌜FinS cfg e w⌝⟩⦄ := by
+  mvcgen [sleepAction]
+  c13w
+
+attribute [local spec] sleepAction_spec
+
+theorem failureOutcome_spec (cfg : Cfg) (tl : Bool) (a : Nat) (d : Decision)
+    (cls : Option Classification) (e : Option Exn) (r : Option Nat) (c : Option Cause) :
+    ⦃fun w => ⌜ReadyW cfg w⌝⦄ failureOutcome cfg tl a d cls e r c
+    ⦃post⟨fun _ w => ⌜LiveW cfg w⌝, fun e w => ⌜FinS cfg e w⌝⟩⦄ := by
+  mvcgen [failureOutcome]
+  c13w
+
+attribute [local spec] failureOutcome_spec
+
+/-- one attempt of `call`: the loop goes on (or returns) alive, or the run ends as the verdict wants -/
+abbrev livePost (cfg : Cfg) : PostCond α (.except Exn (.arg World .pure)) :=
+  post⟨fun _ w => ⌜LiveW cfg w⌝, fun e w => ⌜Fin cfg e w⌝⟩
+
+theorem callExceptionPath_spec (cfg : Cfg) (a : Nat) (e : Exn) :
+    ⦃fun w => ⌜LiveW cfg w⌝⦄ callExceptionPath cfg a e ⦃livePost cfg⦄ := by
+  mvcgen [callExceptionPath, getRS, modifyAS]
+  c13w
+
+attribute [local spec] callExceptionPath_spec
+
+theorem callOpHandler_spec (cfg : Cfg) (a : Nat) (e : Exn) :
+    ⦃fun w => ⌜FinS cfg e w⌝⦄ callOpHandler cfg a e ⦃livePost cfg⦄ := by
+  mvcgen [callOpHandler]
+  c13w
+
+attribute [local spec] callOpHandler_spec
+
+theorem callResultFailure_spec (cfg : Cfg) (a x : Nat) (c : Classification) :
+    ⦃fun w => ⌜LiveW cfg w⌝⦄ callResultFailure cfg a x c ⦃livePost cfg⦄ := by
+  mvcgen [callResultFailure, getRS, modifyAS]
+  c13w
+
+attribute [local spec] callResultFailure_spec
+
+theorem callResultPath_spec (cfg : Cfg) (a x : Nat) :
+    ⦃fun w => ⌜LiveW cfg w⌝⦄ callResultPath cfg a x ⦃livePost cfg⦄ := by
+  mvcgen [callResultPath]
+  c13w
+
+attribute [local spec] callResultPath_spec
+
+/-- one iteration of the loop of `call` -/
+theorem callAttempt_spec (cfg : Cfg) (a : Nat) :
+    ⦃fun w => ⌜LiveW cfg w⌝⦄ callAttempt cfg a ⦃livePost cfg⦄ := by
+  mvcgen [callAttempt, modifyAS]
+  c13w
+
+theorem callLoop_spec (cfg : Cfg) : ∀ (fuel a : Nat),
+    ⦃fun w => ⌜LiveW cfg w⌝⦄ callLoop cfg fuel a ⦃livePost cfg⦄ := by
+  intro fuel
+  induction fuel with
+  | zero =>
+    intro a
+    mvcgen [callLoop]
+    c13w
+  | succ f ih =>
+    intro a
+    mvcgen [callLoop, callAttempt_spec, ih]
+    c13w
+
+theorem runCall_spec (cfg : Cfg) :
+    ⦃fun w => ⌜LiveW cfg w⌝⦄ runCall cfg ⦃livePost cfg⦄ := by
+  have hl := callLoop_spec cfg cfg.maxAttempts 1
+  mvcgen [runCall, initState, hl]
+  c13w
+
+
+attribute [local spec] checkAbort_w invokeOp_w callSleeper_w sleepAction_spec failureOutcome_spec
+
+/-! ### the retry loop, `execute` flavour -/
+
+/-- what the verdict asks of a run that ends by returning outcome `o` -/
+def FinO (cfg : Cfg) (o : Outcome) (w : World) : Prop :=
+  (cur cfg w.trace).bad = false ∧ (cur cfg w.trace).cancelled = none ∧
+    ((cur cfg w.trace).aborted = true → o.stop = some .aborted)
+
+/-- after an attempt of `execute`: go on alive, or return an acceptable outcome -/
+def OkX (cfg : Cfg) (r : Option Outcome) (w : World) : Prop :=
+  (r = none → LiveW cfg w) ∧ (∀ o, r = some o → FinO cfg o w)
+
+abbrev xPost (cfg : Cfg) : PostCond (Option Outcome) (.except Exn (.arg World .pure)) :=
+  post⟨fun r w => ⌜OkX cfg r w⌝, fun e w => ⌜Fin cfg e w⌝⟩
+
+macro "c13x" : tactic => `(tactic| all_goals (
+  first
+    | ((try subst_vars) <;> (try intros) <;> (try simp only [finS_iff, fin_iff]) <;>
+       (try simp only [view, LiveW, ReadyW, QuietW, OkX, FinO, live_iff, ready_iff, finS_iff_h, fin_iff_h] at *) <;>
+       (simp_all +zetaDelta [viewOf_eq_some, viewOf_of_none, Org, Exn.isAbort, Exn.isException]; done))
+    | ((try subst_vars) <;> (try intros) <;> (try simp only [finS_iff, fin_iff]) <;>
+       (try simp only [view, LiveW, ReadyW, QuietW, OkX, FinO, live_iff, ready_iff, finS_iff_h, fin_iff_h] at *) <;>
+       (try simp_all +zetaDelta [viewOf_eq_some, viewOf_of_none, Org, Exn.isAbort, Exn.isException]) <;>
+       grind)
+    | skip))
+
+theorem execAbortExit_spec (cfg : Cfg) (tl : Bool) (a : Nat) (e : Exn) :
+    ⦃fun w => ⌜QuietW cfg w⌝⦄ execAbortExit cfg tl a e
+    ⦃post⟨fun r w => ⌜r ≠ none ∧ OkX cfg r w⌝, fun e w => ⌜Fin cfg e w⌝⟩⦄ := by
+  mvcgen [execAbortExit]
+  c13x
+
+theorem checkAbortCaught_spec (cfg : Cfg) (tl : Bool) (a : Nat) :
+    ⦃fun w => ⌜LiveW cfg w⌝⦄ checkAbortCaught cfg tl a
+    ⦃post⟨fun b w => ⌜(b = false → ReadyW cfg w) ∧ (b = true → QuietW cfg w)⌝, fun e w => ⌜Fin cfg e w⌝⟩⦄ := by
+  mvcgen [checkAbortCaught, abortToTrue]
+  c13x
+
+attribute [local spec] execAbortExit_spec checkAbortCaught_spec
+
+theorem execExceptionPath3_spec (cfg : Cfg) (tl : Bool) (a : Nat) (e : Exn) (d : Decision) :
+    ⦃fun w => ⌜ReadyW cfg w⌝⦄ execExceptionPath3 cfg tl a e d ⦃xPost cfg⦄ := by
+  mvcgen [execExceptionPath3, getRS, modifyAS]
+  c13x
+
+attribute [local spec] execExceptionPath3_spec
+
+theorem execExceptionPath2_spec (cfg : Cfg) (tl : Bool) (a : Nat) (e : Exn) :
+    ⦃fun w => ⌜ReadyW cfg w⌝⦄ execExceptionPath2 cfg tl a e ⦃xPost cfg⦄ := by
+  mvcgen [execExceptionPath2, getRS, modifyAS]
+  c13x
+
+attribute [local spec] execExceptionPath2_spec
+
+theorem execExceptionPath_spec (cfg : Cfg) (tl : Bool) (a : Nat) (e : Exn) :
+    ⦃fun w => ⌜LiveW cfg w⌝⦄ execExceptionPath cfg tl a e ⦃xPost cfg⦄ := by
+  mvcgen [execExceptionPath, modifyAS]
+  c13x
+
+attribute [local spec] execExceptionPath_spec
+
+theorem execHandler_spec (cfg : Cfg) (tl : Bool) (a : Nat) (e : Exn) :
+    ⦃fun w => ⌜FinS cfg e w⌝⦄ execHandler cfg tl a e ⦃xPost cfg⦄ := by
+  mvcgen [execHandler]
+  c13x
+
+theorem execReturnedHandler_spec (cfg : Cfg) (tl : Bool) (a : Nat) (e : Exn) :
+    ⦃fun w => ⌜Fin cfg e w⌝⦄ execReturnedHandler cfg tl a e ⦃xPost cfg⦄ := by
+  mvcgen [execReturnedHandler]
+  c13x
+
+theorem execResultFailure_spec (cfg : Cfg) (tl : Bool) (a x : Nat) (c : Classification) :
+    ⦃fun w => ⌜LiveW cfg w⌝⦄ execResultFailure cfg tl a x c ⦃xPost cfg⦄ := by
+  mvcgen [execResultFailure, getRS, modifyAS]
+  c13x
+
+attribute [local spec] execResultFailure_spec
+
+theorem execResultPath_spec (cfg : Cfg) (tl : Bool) (a x : Nat) :
+    ⦃fun w => ⌜LiveW cfg w⌝⦄ execResultPath cfg tl a x ⦃xPost cfg⦄ := by
+  mvcgen [execResultPath]
+  c13x
+
+theorem execPre_spec (cfg : Cfg) (tl : Bool) (a : Nat) :
+    ⦃fun w => ⌜LiveW cfg w⌝⦄ execPre cfg tl a
+    ⦃post⟨fun _ w => ⌜LiveW cfg w⌝, fun e w => ⌜FinS cfg e w⌝⟩⦄ := by
+  mvcgen [execPre, modifyAS]
+  c13x
+
+theorem execAttempt_spec (cfg : Cfg) (tl : Bool) (a : Nat) :
+    ⦃fun w => ⌜LiveW cfg w⌝⦄ execAttempt cfg tl a ⦃xPost cfg⦄ := by
+  mvcgen [execAttempt, execPre_spec, execHandler_spec, execResultPath_spec, execReturnedHandler_spec]
+  c13x
+
+theorem execLoop_spec (cfg : Cfg) (tl : Bool) : ∀ (fuel a : Nat),
+    ⦃fun w => ⌜LiveW cfg w⌝⦄ execLoop cfg tl fuel a
+    ⦃post⟨fun o w => ⌜FinO cfg o w⌝, fun e w => ⌜Fin cfg e w⌝⟩⦄ := by
+  intro fuel
+  induction fuel with
+  | zero =>
+    intro a
+    mvcgen [execLoop]
+    c13x
+  | succ f ih =>
+    intro a
+    mvcgen [execLoop, execAttempt_spec, ih]
+    c13x
+
+theorem runExecute_spec (cfg : Cfg) :
+    ⦃fun w => ⌜LiveW cfg w⌝⦄ runExecute cfg
+    ⦃post⟨fun o w => ⌜FinO cfg o w⌝, fun e w => ⌜Fin cfg e w⌝⟩⦄ := by
+  have hl := execLoop_spec cfg cfg.timeline cfg.maxAttempts 1
+  mvcgen [runExecute, initState, hl]
+  c13x
+
+/-! ### policy level -/
+open Policy
+
+
+/-- footprint + origin ⇒ invariance, and knowledge of where an escaping exception comes from -/
+theorem inv_org_of_foot {α : Type} {x : M α} {K : Kind → Bool} {O : Exn → World → Prop}
+    (I : World → Prop)
+    (hx : ∀ w0, ⦃fun w => ⌜Foot K w0 w⌝⦄ x ⦃footPost K w0⦄)
+    (ho : ⦃fun _ => ⌜True⌝⦄ x ⦃post⟨fun _ _ => ⌜True⌝, fun e w => ⌜O e w⌝⟩⦄)
+    (hI : ∀ w w', Foot K w w' → I w → I w') :
+    ⦃fun w => ⌜I w⌝⦄ x ⦃post⟨fun _ w => ⌜I w⌝, fun e w => ⌜I w ∧ O e w⌝⟩⦄ := by
+  apply triple_of_run
+  intro w hw
+  have h1 := adequacy (hx w) w (Foot.refl _ w)
+  have h2 := adequacy ho w trivial
+  split <;> simp_all <;> exact hI _ _ h1 hw
+
+theorem cur_foot_inert (cfg : Cfg) (w w' : World) (h : Foot inertK w w')
+    (hc : (cur cfg w.trace).cancelled = none) : cur cfg w'.trace = cur cfg w.trace := by
+  obtain ⟨δ, e, k⟩ := h.trace
+  rw [e, cur_append_inert cfg δ _ k hc]
+
+theorem cur_foot_brk (cfg : Cfg) (w w' : World) (h : Foot brkK w w') :
+    cur cfg w'.trace = cur cfg w.trace := by
+  obtain ⟨δ, e, k⟩ := h.trace
+  rw [e, cur_append_brk cfg δ _ k]
+
+theorem org_foot {K : Kind → Bool} {w w' : World} (e : Exn) (h : Foot K w w') (ho : Org e w) : Org e w' := by
+  obtain ⟨δ, ht, _⟩ := h.trace
+  rcases ho with h | h | h
+  · exact Or.inl h
+  · exact Or.inr (Or.inl h)
+  · exact Or.inr (Or.inr (ht ▸ h.mono δ))
+
+theorem brk_sub_inert : ∀ k, brkK k = true → inertK k = true := by
+  intro k; cases k <;> simp [brkK, inertK]
+
+theorem liveW_foot (cfg : Cfg) (w w' : World) (h : Foot inertK w w') (hl : LiveW cfg w) : LiveW cfg w' := by
+  unfold LiveW at *
+  rw [cur_foot_inert cfg w w' h hl.cancelled]
+  exact hl
+
+theorem fin_foot_brk (cfg : Cfg) (e : Exn) (w w' : World) (h : Foot brkK w w') (hf : Fin cfg e w) :
+    Fin cfg e w' := by
+  have hc := cur_foot_brk cfg w w' h
+  refine ⟨hc ▸ hf.bad, hc ▸ hf.canc, ?_⟩
+  rw [hc]
+  exact fun a b => org_foot e h (hf.abt a b)
+
+/-- an exception is in flight that the verdict accepts, and no cancellation has been seen -/
+def PolA (cfg : Cfg) (e : Exn) (w : World) : Prop := Fin cfg e w ∧ (cur cfg w.trace).cancelled = none
+
+theorem polA_foot (cfg : Cfg) (e : Exn) (w w' : World) (h : Foot inertK w w') (hf : PolA cfg e w) :
+    PolA cfg e w' := by
+  have hc := cur_foot_inert cfg w w' h hf.2
+  refine ⟨⟨hc ▸ hf.1.bad, hc ▸ hf.1.canc, ?_⟩, hc ▸ hf.2⟩
+  rw [hc]
+  exact fun a b => org_foot e h (hf.1.abt a b)
+
+/-- from "an acceptable exception `e0` was in flight, no cancellation" to: the one that escapes now
+    is acceptable too -/
+theorem fin_of_polA {cfg : Cfg} {e0 e : Exn} {w : World} (h : PolA cfg e0 w)
+    (ho : e = .stuck ∨ Raised w.trace e) : Fin cfg e w :=
+  ⟨h.1.bad, by simp [h.2], fun _ _ => Or.inr ho⟩
+
+theorem finO_foot (cfg : Cfg) (o : Outcome) (w w' : World) (h : Foot inertK w w') (hf : FinO cfg o w) :
+    FinO cfg o w' := by
+  unfold FinO at *
+  rw [cur_foot_inert cfg w w' h hf.2.1]
+  exact hf
+
+theorem fin_of_finO {cfg : Cfg} {o : Outcome} {e : Exn} {w : World} (h : FinO cfg o w)
+    (ho : e = .stuck ∨ Raised w.trace e) : Fin cfg e w :=
+  ⟨h.1, by simp [h.2.1], fun _ _ => Or.inr ho⟩
+
+theorem fin_of_liveW {cfg : Cfg} {e : Exn} {w : World} (h : LiveW cfg w) : Fin cfg e w :=
+  ⟨h.bad, by simp [h.cancelled], by simp [h.aborted]⟩
+
+/-- rule of consequence -/
+theorem weaken {α : Type} {x : M α} {P P' : World → Prop} {Q Q' : α → World → Prop}
+    {E E' : Exn → World → Prop}
+    (h : ⦃fun w => ⌜P w⌝⦄ x ⦃post⟨fun a w => ⌜Q a w⌝, fun e w => ⌜E e w⌝⟩⦄)
+    (hp : ∀ w, P' w → P w) (hq : ∀ a w, Q a w → Q' a w) (he : ∀ e w, E e w → E' e w) :
+    ⦃fun w => ⌜P' w⌝⦄ x ⦃post⟨fun a w => ⌜Q' a w⌝, fun e w => ⌜E' e w⌝⟩⦄ := by
+  apply triple_of_run
+  intro w hw
+  have := adequacy h w (hp w hw)
+  split <;> simp_all
+
+/-- `try: x finally: fin`, as a proof rule -/
+theorem finally_rule {α : Type} {x : M α} {fin1 fin2 : M Unit} {P : World → Prop}
+    {Q Q' : α → World → Prop} {E E' : Exn → World → Prop}
+    (hx : ⦃fun w => ⌜P w⌝⦄ x ⦃post⟨fun a w => ⌜Q a w⌝, fun e w => ⌜E e w⌝⟩⦄)
+    (herr : ∀ e, ⦃fun w => ⌜E e w⌝⦄ fin1 ⦃post⟨fun _ w => ⌜E' e w⌝, fun e' w => ⌜E' e' w⌝⟩⦄)
+    (hok : ∀ a, ⦃fun w => ⌜Q a w⌝⦄ fin2 ⦃post⟨fun _ w => ⌜Q' a w⌝, fun e' w => ⌜E' e' w⌝⟩⦄) :
+    ⦃fun w => ⌜P w⌝⦄ (do let a ← tryCatch x (fun e => do fin1; throw e); fin2; pure a)
+    ⦃post⟨fun a w => ⌜Q' a w⌝, fun e w => ⌜E' e w⌝⟩⦄ := by
+  mvcgen [hx, herr, hok]
+
+theorem withFinally_rule {α : Type} {x : M α} {fin : M Unit} {P : World → Prop}
+    {Q Q' : α → World → Prop} {E E' : Exn → World → Prop}
+    (hx : ⦃fun w => ⌜P w⌝⦄ x ⦃post⟨fun a w => ⌜Q a w⌝, fun e w => ⌜E e w⌝⟩⦄)
+    (herr : ∀ e, ⦃fun w => ⌜E e w⌝⦄ fin ⦃post⟨fun _ w => ⌜E' e w⌝, fun e' w => ⌜E' e' w⌝⟩⦄)
+    (hok : ∀ a, ⦃fun w => ⌜Q a w⌝⦄ fin ⦃post⟨fun _ w => ⌜Q' a w⌝, fun e' w => ⌜E' e' w⌝⟩⦄) :
+    ⦃fun w => ⌜P w⌝⦄ withFinally x fin ⦃post⟨fun a w => ⌜Q' a w⌝, fun e w => ⌜E' e w⌝⟩⦄ :=
+  finally_rule hx herr hok
+
+macro "c13p" : tactic => `(tactic| all_goals (
+  first
+    | ((try subst_vars) <;> (try intros) <;> (try simp only [finS_iff, fin_iff]) <;>
+       (try simp only [view, LiveW, ReadyW, QuietW, OkX, FinO, PolA, live_iff, ready_iff, finS_iff_h, fin_iff_h] at *) <;>
+       (simp_all +zetaDelta [viewOf_eq_some, viewOf_of_none, Org, Exn.isAbort, Exn.isException]; done))
+    | ((try subst_vars) <;> (try intros) <;> (try simp only [finS_iff, fin_iff]) <;>
+       (try simp only [view, LiveW, ReadyW, QuietW, OkX, FinO, PolA, live_iff, ready_iff, finS_iff_h, fin_iff_h] at *) <;>
+       (try simp_all +zetaDelta [viewOf_eq_some, viewOf_of_none, Org, Exn.isAbort, Exn.isException]) <;>
+       grind)
+    | skip))
+
+section policySpecs
+variable (cfg : Cfg)
+
+/-- breaker bookkeeping keeps an in-flight verdict, and does not raise -/
+theorem recordCancel_fin (e0 : Exn) :
+    ⦃fun w => ⌜Fin cfg e0 w⌝⦄ Policy.recordCancel cfg
+    ⦃post⟨fun _ w => ⌜Fin cfg e0 w⌝, fun _ w => ⌜Fin cfg e0 w ∧ False⌝⟩⦄ :=
+  inv_org_of_foot (Fin cfg e0) (fun w0 => recordCancel_foot brkK w0 rfl cfg) (recordCancel_never cfg)
+    (fin_foot_brk cfg e0)
+
+theorem ensureSettled_fin (e0 : Exn) :
+    ⦃fun w => ⌜Fin cfg e0 w⌝⦄ ensureSettled cfg
+    ⦃post⟨fun _ w => ⌜Fin cfg e0 w⌝, fun _ w => ⌜Fin cfg e0 w ∧ False⌝⟩⦄ :=
+  inv_org_of_foot (Fin cfg e0) (fun w0 => ensureSettled_foot brkK w0 rfl cfg) (ensureSettled_never cfg)
+    (fin_foot_brk cfg e0)
+
+theorem ensureSettled_live :
+    ⦃fun w => ⌜LiveW cfg w⌝⦄ ensureSettled cfg
+    ⦃post⟨fun _ w => ⌜LiveW cfg w⌝, fun _ w => ⌜LiveW cfg w ∧ False⌝⟩⦄ :=
+  inv_org_of_foot (LiveW cfg) (fun w0 => ensureSettled_foot inertK w0 rfl cfg) (ensureSettled_never cfg)
+    (liveW_foot cfg)
+
+theorem ensureSettled_finO (o : Outcome) :
+    ⦃fun w => ⌜FinO cfg o w⌝⦄ ensureSettled cfg
+    ⦃post⟨fun _ w => ⌜FinO cfg o w⌝, fun _ w => ⌜FinO cfg o w ∧ False⌝⟩⦄ :=
+  inv_org_of_foot (FinO cfg o) (fun w0 => ensureSettled_foot inertK w0 rfl cfg) (ensureSettled_never cfg)
+    (finO_foot cfg o)
+
+theorem handleExhaustedCall_polA (e0 e : Exn) :
+    ⦃fun w => ⌜PolA cfg e0 w⌝⦄ handleExhaustedCall cfg e
+    ⦃post⟨fun _ w => ⌜PolA cfg e0 w⌝, fun e' w => ⌜PolA cfg e0 w ∧ (e' = .stuck ∨ Raised w.trace e')⌝⟩⦄ :=
+  inv_org_of_foot (PolA cfg e0) (fun w0 => handleExhaustedCall_foot inertK w0 rfl rfl rfl cfg e)
+    (handleExhaustedCall_org cfg e) (polA_foot cfg e0)
+
+theorem handleExceptionCall_polA (e0 e : Exn) (b : Bool) :
+    ⦃fun w => ⌜PolA cfg e0 w⌝⦄ handleExceptionCall cfg e b
+    ⦃post⟨fun _ w => ⌜PolA cfg e0 w⌝, fun e' w => ⌜PolA cfg e0 w ∧ (e' = .stuck ∨ Raised w.trace e')⌝⟩⦄ :=
+  inv_org_of_foot (PolA cfg e0) (fun w0 => handleExceptionCall_foot inertK w0 rfl rfl rfl rfl rfl cfg e b)
+    (handleExceptionCall_org cfg e b) (polA_foot cfg e0)
+
+theorem handleAbortCall_polA (e0 e : Exn) :
+    ⦃fun w => ⌜PolA cfg e0 w⌝⦄ handleAbortCall cfg e
+    ⦃post⟨fun _ w => ⌜PolA cfg e0 w⌝, fun e' w => ⌜PolA cfg e0 w ∧ (e' = .stuck ∨ Raised w.trace e')⌝⟩⦄ :=
+  inv_org_of_foot (PolA cfg e0) (fun w0 => handleAbortCall_foot inertK w0 rfl rfl cfg e)
+    (handleAbortCall_org cfg e) (polA_foot cfg e0)
+
+theorem recordSuccess_live :
+    ⦃fun w => ⌜LiveW cfg w⌝⦄ Policy.recordSuccess cfg
+    ⦃post⟨fun _ w => ⌜LiveW cfg w⌝, fun e' w => ⌜LiveW cfg w ∧ (e' = .stuck ∨ Raised w.trace e')⌝⟩⦄ :=
+  inv_org_of_foot (LiveW cfg) (fun w0 => recordSuccess_foot inertK w0 rfl rfl rfl cfg)
+    (recordSuccess_org cfg) (liveW_foot cfg)
+
+theorem checkBreaker_live :
+    ⦃fun w => ⌜LiveW cfg w⌝⦄ checkBreaker cfg
+    ⦃post⟨fun _ w => ⌜LiveW cfg w⌝, fun _ w => ⌜LiveW cfg w⌝⟩⦄ :=
+  inv_of_foot (LiveW cfg) (fun w0 => checkBreaker_foot inertK w0 rfl rfl rfl cfg) (liveW_foot cfg)
+
+theorem initCtx_live :
+    ⦃fun w => ⌜LiveW cfg w⌝⦄ initCtx
+    ⦃post⟨fun _ w => ⌜LiveW cfg w⌝, fun _ w => ⌜LiveW cfg w⌝⟩⦄ :=
+  inv_of_foot (LiveW cfg) (fun w0 => initCtx_foot inertK w0) (liveW_foot cfg)
+
+/-- the `except` ladder of `Policy.call`: whatever was in flight stays acceptable; after a
+    cancellation only `record_cancel` happens -/
+theorem callLadder_spec (e : Exn) :
+    ⦃fun w => ⌜Fin cfg e w⌝⦄ callLadder cfg e
+    ⦃post⟨fun _ _ => ⌜False⌝, fun e' w => ⌜Fin cfg e' w⌝⟩⦄ := by
+  have h1 := recordCancel_fin cfg e
+  have h2 := handleAbortCall_polA cfg e e
+  have h3 := handleExhaustedCall_polA cfg e e
+  have h4 := handleExceptionCall_polA cfg e e true
+  mvcgen [callLadder, h1, h2, h3, h4]
+  c13p
+
+theorem callAdmitted_retry (hret : cfg.hasRetry = true) :
+    ⦃fun w => ⌜LiveW cfg w⌝⦄ callAdmitted cfg ⦃livePost cfg⦄ := by
+  have h1 := checkBreaker_live cfg
+  have h2 := runCall_spec cfg
+  have h3 := recordSuccess_live cfg
+  have h4 := callLadder_spec cfg
+  unfold callAdmitted
+  simp only [hret, if_true]
+  mvcgen [h1, h2, h3, h4]
+  c13p
+
+/-- `Policy.call` with a retry component -/
+theorem call_retry_spec (hret : cfg.hasRetry = true) :
+    ⦃fun w => ⌜LiveW cfg w⌝⦄ Policy.call cfg ⦃livePost cfg⦄ := by
+  have h0 := initCtx_live cfg
+  have hw : ⦃fun w => ⌜LiveW cfg w⌝⦄ withFinally (callAdmitted cfg) (ensureSettled cfg) ⦃livePost cfg⦄ :=
+    withFinally_rule (callAdmitted_retry cfg hret)
+      (fun e => weaken (ensureSettled_fin cfg e) (fun _ h => h) (fun _ _ h => h) (fun _ _ h => h.2.elim))
+      (fun _ => weaken (ensureSettled_live cfg) (fun _ h => h) (fun _ _ h => h) (fun _ _ h => h.2.elim))
+  mvcgen [Policy.call, h0, hw]
+  c13p
+
+theorem executeLadder_spec (e : Exn) :
+    ⦃fun w => ⌜Fin cfg e w⌝⦄ executeLadder cfg e
+    ⦃post⟨fun _ _ => ⌜False⌝, fun e' w => ⌜Fin cfg e' w⌝⟩⦄ := by
+  have h1 := recordCancel_fin cfg e
+  have h3 := handleExhaustedCall_polA cfg e e
+  have h4 := handleExceptionCall_polA cfg e e false
+  mvcgen [executeLadder, h1, h3, h4]
+  c13p
+
+theorem recordSuccess_finO (o : Outcome) :
+    ⦃fun w => ⌜FinO cfg o w⌝⦄ Policy.recordSuccess cfg
+    ⦃post⟨fun _ w => ⌜FinO cfg o w⌝, fun e' w => ⌜FinO cfg o w ∧ (e' = .stuck ∨ Raised w.trace e')⌝⟩⦄ :=
+  inv_org_of_foot (FinO cfg o) (fun w0 => recordSuccess_foot inertK w0 rfl rfl rfl cfg)
+    (recordSuccess_org cfg) (finO_foot cfg o)
+
+theorem recordFailure_finO (o : Outcome) (k : EClass) :
+    ⦃fun w => ⌜FinO cfg o w⌝⦄ Policy.recordFailure cfg k
+    ⦃post⟨fun _ w => ⌜FinO cfg o w⌝, fun e' w => ⌜FinO cfg o w ∧ (e' = .stuck ∨ Raised w.trace e')⌝⟩⦄ :=
+  inv_org_of_foot (FinO cfg o) (fun w0 => recordFailure_foot inertK w0 rfl rfl rfl cfg k)
+    (recordFailure_org cfg k) (finO_foot cfg o)
+
+theorem recordCancel_finO (o : Outcome) :
+    ⦃fun w => ⌜FinO cfg o w⌝⦄ Policy.recordCancel cfg
+    ⦃post⟨fun _ w => ⌜FinO cfg o w⌝, fun _ w => ⌜FinO cfg o w ∧ False⌝⟩⦄ :=
+  inv_org_of_foot (FinO cfg o) (fun w0 => recordCancel_foot inertK w0 rfl cfg)
+    (recordCancel_never cfg) (finO_foot cfg o)
+
+abbrev outPost (cfg : Cfg) : PostCond Outcome (.except Exn (.arg World .pure)) :=
+  post⟨fun o w => ⌜FinO cfg o w⌝, fun e w => ⌜Fin cfg e w⌝⟩
+
+theorem executeWithRetry_spec :
+    ⦃fun w => ⌜LiveW cfg w⌝⦄ executeWithRetry cfg ⦃outPost cfg⦄ := by
+  have h1 := runExecute_spec cfg
+  have h2 := executeLadder_spec cfg
+  have h3 := recordSuccess_finO cfg
+  have h4 := recordFailure_finO cfg
+  have h5 := recordCancel_finO cfg
+  mvcgen [executeWithRetry, h1, h2, h3, h4, h5]
+  c13p
+
+theorem policyOutcome_live (ok : Bool) (value : Option Nat) (stop : Option StopReason) (attempts : Nat)
+    (lc : Option EClass) (le : Option String) (cause : Option Cause) :
+    ⦃fun w => ⌜LiveW cfg w⌝⦄ policyOutcome ok value stop attempts lc le cause
+    ⦃post⟨fun _ w => ⌜LiveW cfg w⌝, fun _ w => ⌜LiveW cfg w⌝⟩⦄ :=
+  inv_of_foot (LiveW cfg) (fun w0 => policyOutcome_foot inertK w0 ok value stop attempts lc le cause)
+    (liveW_foot cfg)
+
+theorem breakerAllow_live (bc : Breaker.Cfg) :
+    ⦃fun w => ⌜LiveW cfg w⌝⦄ breakerAllow bc
+    ⦃post⟨fun _ w => ⌜LiveW cfg w⌝, fun _ w => ⌜LiveW cfg w⌝⟩⦄ :=
+  inv_of_foot (LiveW cfg) (fun w0 => breakerAllow_foot inertK w0 rfl bc) (liveW_foot cfg)
+
+theorem emitBreakerEvent_live (ev : Option Event) (st : CState) (k : Option EClass) :
+    ⦃fun w => ⌜LiveW cfg w⌝⦄ emitBreakerEvent cfg ev st k
+    ⦃post⟨fun _ w => ⌜LiveW cfg w⌝, fun _ w => ⌜LiveW cfg w⌝⟩⦄ :=
+  inv_of_foot (LiveW cfg) (fun w0 => emitBreakerEvent_foot inertK w0 rfl rfl cfg ev st k) (liveW_foot cfg)
+
+theorem executeAdmitted2_retry (hret : cfg.hasRetry = true) :
+    ⦃fun w => ⌜LiveW cfg w⌝⦄ executeAdmitted2 cfg ⦃outPost cfg⦄ := by
+  have h1 := executeWithRetry_spec cfg
+  unfold executeAdmitted2
+  simp only [hret, if_true]
+  mvcgen [h1]
+  c13p
+
+theorem executeAdmitted_retry (hret : cfg.hasRetry = true) :
+    ⦃fun w => ⌜LiveW cfg w⌝⦄ executeAdmitted cfg ⦃outPost cfg⦄ := by
+  have h1 := executeAdmitted2_retry cfg hret
+  have h2 := breakerAllow_live cfg
+  have h3 := emitBreakerEvent_live cfg
+  have h4 := policyOutcome_live cfg
+  mvcgen [executeAdmitted, h1, h2, h3, h4]
+  c13p
+
+/-- `Policy.execute` with a retry component -/
+theorem execute_retry_spec (hret : cfg.hasRetry = true) :
+    ⦃fun w => ⌜LiveW cfg w⌝⦄ Policy.execute cfg ⦃outPost cfg⦄ := by
+  have h0 := initCtx_live cfg
+  have hw : ⦃fun w => ⌜LiveW cfg w⌝⦄ withFinally (executeAdmitted cfg) (ensureSettled cfg) ⦃outPost cfg⦄ :=
+    withFinally_rule (executeAdmitted_retry cfg hret)
+      (fun e => weaken (ensureSettled_fin cfg e) (fun _ h => h) (fun _ _ h => h) (fun _ _ h => h.2.elim))
+      (fun o => weaken (ensureSettled_finO cfg o) (fun _ h => h) (fun _ _ h => h) (fun _ _ h => h.2.elim))
+  mvcgen [Policy.execute, h0, hw]
+  c13p
+
+end policySpecs
+
+/-! ### policies without a retry component -/
+
+theorem recordCancel_v (v : Option St) (cfg : Cfg) :
+    ⦃fun w => ⌜view cfg w = v⌝⦄ Policy.recordCancel cfg
+    ⦃post⟨fun _ w => ⌜view cfg w = v⌝, fun _ w => ⌜view cfg w = v ∧ False⌝⟩⦄ :=
+  leaf_of cfg (fun w0 => recordCancel_foot inertK w0 rfl cfg) (recordCancel_never cfg) v
+
+theorem checkAbortNoRetry_spec (cfg : Cfg) (m : St) (hm : Live m) :
+    ⦃fun w => ⌜view cfg w = some m⌝⦄ checkAbortNoRetry cfg
+    ⦃post⟨fun b w => ⌜(b = false → view cfg w = some (pollOk cfg m)) ∧
+              (b = true → view cfg w = some { m with polled := true, aborted := true })⌝,
+          fun e w => ⌜FinS cfg e w⌝⟩⦄ := by
+  obtain ⟨h1, h2, h3⟩ := hm
+  have hrc := recordCancel_v
+  mvcgen [checkAbortNoRetry, ask_cur, hrc]
+  all_goals ((try subst_vars) <;> (try intros) <;> (try simp only [view, finS_iff] at *) <;>
+    simp_all [viewOf_eq_some, viewOf_of_none, step_abortIf, saysAbort, pollOk, Org, Exn.isAbort,
+      Exn.isException])
+
+theorem checkAbortNoRetry_w (cfg : Cfg) :
+    ⦃fun w => ⌜LiveW cfg w⌝⦄ checkAbortNoRetry cfg
+    ⦃post⟨fun b w => ⌜(b = false → ReadyW cfg w) ∧ (b = true → QuietW cfg w)⌝,
+          fun e w => ⌜FinS cfg e w⌝⟩⦄ := by
+  apply triple_of_run
+  intro w hw
+  have := adequacy (checkAbortNoRetry_spec cfg _ hw) w (view_eq_some.mpr ⟨rfl, hw.cancelled⟩)
+  split <;> simp_all
+  obtain ⟨h1, h2, h3⟩ := hw
+  refine ⟨fun hb => ?_, fun hb => ?_⟩
+  · have h := (view_eq_some.mp (this.1 hb)).1
+    unfold ReadyW
+    rw [h]
+    exact (Live.mk h1 h2 h3).pollOk
+  · have h := (view_eq_some.mp (this.2 hb)).1
+    unfold QuietW
+    rw [h]
+    exact ⟨h2, h3⟩
+
+section noRetry
+variable (cfg : Cfg)
+
+theorem noRetryStartHook_ready :
+    ⦃fun w => ⌜ReadyW cfg w⌝⦄ noRetryStartHook cfg
+    ⦃post⟨fun _ w => ⌜ReadyW cfg w⌝, fun _ w => ⌜ReadyW cfg w⌝⟩⦄ :=
+  inv_of_foot (ReadyW cfg) (fun w0 => noRetryStartHook_foot inertK w0 rfl cfg) (fun w w' h hr => by
+    unfold ReadyW at *
+    rw [cur_foot_inert cfg w w' h hr.cancelled]
+    exact hr)
+
+theorem noRetryEndHook_live (exc : Option Exn) (r : Option Nat) (d : AttemptDecision)
+    (stop : Option StopReason) (cause : Option Cause) :
+    ⦃fun w => ⌜LiveW cfg w⌝⦄ noRetryEndHook cfg exc r d stop cause
+    ⦃post⟨fun _ w => ⌜LiveW cfg w⌝, fun _ w => ⌜LiveW cfg w⌝⟩⦄ :=
+  inv_of_foot (LiveW cfg) (fun w0 => noRetryEndHook_foot inertK w0 rfl cfg exc r d stop cause)
+    (liveW_foot cfg)
+
+theorem callWithoutRetry_spec :
+    ⦃fun w => ⌜ReadyW cfg w⌝⦄ callWithoutRetry cfg
+    ⦃post⟨fun _ w => ⌜LiveW cfg w⌝, fun e w => ⌜Fin cfg e w⌝⟩⦄ := by
+  have h1 := noRetryStartHook_ready cfg
+  have h2 := invokeOp_w cfg
+  have h3 := noRetryEndHook_live cfg
+  mvcgen [callWithoutRetry, h1, h2, h3]
+  c13p
+
+theorem callAdmitted_nr (hret : cfg.hasRetry = false) :
+    ⦃fun w => ⌜LiveW cfg w⌝⦄ callAdmitted cfg ⦃livePost cfg⦄ := by
+  have h1 := checkBreaker_live cfg
+  have h2 := callWithoutRetry_spec cfg
+  have h3 := recordSuccess_live cfg
+  have h4 := callLadder_spec cfg
+  have h5 := checkAbortNoRetry_w cfg
+  unfold callAdmitted
+  simp only [hret, Bool.false_eq_true, if_false]
+  mvcgen [h1, h2, h3, h4, h5]
+  c13p
+
+/-- `Policy.call` without a retry component -/
+theorem call_nr_spec (hret : cfg.hasRetry = false) :
+    ⦃fun w => ⌜LiveW cfg w⌝⦄ Policy.call cfg ⦃livePost cfg⦄ := by
+  have h0 := initCtx_live cfg
+  have hw : ⦃fun w => ⌜LiveW cfg w⌝⦄ withFinally (callAdmitted cfg) (ensureSettled cfg) ⦃livePost cfg⦄ :=
+    withFinally_rule (callAdmitted_nr cfg hret)
+      (fun e => weaken (ensureSettled_fin cfg e) (fun _ h => h) (fun _ _ h => h) (fun _ _ h => h.2.elim))
+      (fun _ => weaken (ensureSettled_live cfg) (fun _ h => h) (fun _ _ h => h) (fun _ _ h => h.2.elim))
+  mvcgen [Policy.call, h0, hw]
+  c13p
+
+theorem quietW_foot (w w' : World) (h : Foot inertK w w') (hq : QuietW cfg w) : QuietW cfg w' := by
+  unfold QuietW at *
+  rw [cur_foot_inert cfg w w' h hq.1]
+  exact hq
+
+theorem noRetryEndHook_quiet (exc : Option Exn) (r : Option Nat) (d : AttemptDecision)
+    (stop : Option StopReason) (cause : Option Cause) :
+    ⦃fun w => ⌜QuietW cfg w⌝⦄ noRetryEndHook cfg exc r d stop cause
+    ⦃post⟨fun _ w => ⌜QuietW cfg w⌝, fun e' w => ⌜QuietW cfg w ∧ (e' = .stuck ∨ Raised w.trace e')⌝⟩⦄ :=
+  inv_org_of_foot (QuietW cfg) (fun w0 => noRetryEndHook_foot inertK w0 rfl cfg exc r d stop cause)
+    (noRetryEndHook_org cfg exc r d stop cause) (quietW_foot cfg)
+
+theorem policyOutcome_quiet (ok : Bool) (value : Option Nat) (stop : Option StopReason) (attempts : Nat)
+    (lc : Option EClass) (le : Option String) (cause : Option Cause) :
+    ⦃fun w => ⌜QuietW cfg w⌝⦄ policyOutcome ok value stop attempts lc le cause
+    ⦃post⟨fun o w => ⌜o.stop = stop ∧ QuietW cfg w⌝, fun _ _ => ⌜False⌝⟩⦄ := by
+  mvcgen [policyOutcome, xElapsed]
+
+theorem recordCancel_quiet :
+    ⦃fun w => ⌜QuietW cfg w⌝⦄ Policy.recordCancel cfg
+    ⦃post⟨fun _ w => ⌜QuietW cfg w⌝, fun _ w => ⌜QuietW cfg w ∧ False⌝⟩⦄ :=
+  inv_org_of_foot (QuietW cfg) (fun w0 => recordCancel_foot inertK w0 rfl cfg) (recordCancel_never cfg)
+    (quietW_foot cfg)
+
+theorem recordFailure_live (k : EClass) :
+    ⦃fun w => ⌜LiveW cfg w⌝⦄ Policy.recordFailure cfg k
+    ⦃post⟨fun _ w => ⌜LiveW cfg w⌝, fun _ w => ⌜LiveW cfg w⌝⟩⦄ :=
+  inv_of_foot (LiveW cfg) (fun w0 => recordFailure_foot inertK w0 rfl rfl rfl cfg k) (liveW_foot cfg)
+
+/-- the `except` ladder of `_execute_without_retry` -/
+theorem noRetryLadder_spec (e : Exn) :
+    ⦃fun w => ⌜FinS cfg e w⌝⦄ noRetryLadder cfg e ⦃outPost cfg⦄ := by
+  by_cases ha : e.isAbort = true
+  · have h1 := recordCancel_quiet cfg
+    have h2 := noRetryEndHook_quiet cfg
+    have h3 := policyOutcome_quiet cfg
+    unfold noRetryLadder
+    simp only [ha, if_true]
+    mvcgen [h1, h2, h3]
+    c13p
+  · by_cases hx : e.isException = true
+    · have hc : ¬ e = .cancelled := by rintro rfl; simp [Exn.isException] at hx
+      have hk : e.isKiSe = false := by cases e <;> simp_all [Exn.isKiSe, Exn.isException]
+      have h1 := recordFailure_live cfg
+      have h2 := noRetryEndHook_live cfg
+      have h3 := policyOutcome_live cfg
+      unfold noRetryLadder
+      simp only [ha, hc, hk, hx, Bool.false_eq_true, if_false, if_true, Bool.and_false, decide_false]
+      mvcgen [h1, h2, h3]
+      c13p
+    · have h1 := recordCancel_fin cfg e
+      unfold noRetryLadder
+      simp only [ha, hx, Bool.false_eq_true, if_false]
+      mvcgen [h1]
+      c13p
+
+theorem executeWithoutRetry_spec :
+    ⦃fun w => ⌜ReadyW cfg w⌝⦄ executeWithoutRetry cfg ⦃outPost cfg⦄ := by
+  have h1 := noRetryStartHook_ready cfg
+  have h2 := invokeOp_w cfg
+  have h3 := noRetryLadder_spec cfg
+  have h4 := recordSuccess_live cfg
+  have h5 := noRetryEndHook_live cfg
+  have h6 := policyOutcome_live cfg
+  mvcgen [executeWithoutRetry, h1, h2, h3, h4, h5, h6]
+  c13p
+
+theorem executeAdmitted2_nr (hret : cfg.hasRetry = false) :
+    ⦃fun w => ⌜LiveW cfg w⌝⦄ executeAdmitted2 cfg ⦃outPost cfg⦄ := by
+  have h1 := executeWithoutRetry_spec cfg
+  have h2 := checkAbortNoRetry_w cfg
+  have h3 := policyOutcome_quiet cfg
+  unfold executeAdmitted2
+  simp only [hret, Bool.false_eq_true, if_false]
+  mvcgen [h1, h2, h3]
+  c13p
+
+theorem executeAdmitted_nr (hret : cfg.hasRetry = false) :
+    ⦃fun w => ⌜LiveW cfg w⌝⦄ executeAdmitted cfg ⦃outPost cfg⦄ := by
+  have h1 := executeAdmitted2_nr cfg hret
+  have h2 := breakerAllow_live cfg
+  have h3 := emitBreakerEvent_live cfg
+  have h4 := policyOutcome_live cfg
+  mvcgen [executeAdmitted, h1, h2, h3, h4]
+  c13p
+
+/-- `Policy.execute` without a retry component -/
+theorem execute_nr_spec (hret : cfg.hasRetry = false) :
+    ⦃fun w => ⌜LiveW cfg w⌝⦄ Policy.execute cfg ⦃outPost cfg⦄ := by
+  have h0 := initCtx_live cfg
+  have hw : ⦃fun w => ⌜LiveW cfg w⌝⦄ withFinally (executeAdmitted cfg) (ensureSettled cfg) ⦃outPost cfg⦄ :=
+    withFinally_rule (executeAdmitted_nr cfg hret)
+      (fun e => weaken (ensureSettled_fin cfg e) (fun _ h => h) (fun _ _ h => h) (fun _ _ h => h.2.elim))
+      (fun o => weaken (ensureSettled_finO cfg o) (fun _ h => h) (fun _ _ h => h) (fun _ _ h => h.2.elim))
+  mvcgen [Policy.execute, h0, hw]
+  c13p
+
+end noRetry
+
+/-! ### the theorems -/
+
+theorem raised_reverse (t : List (Req × Ans)) (e : Exn) : Raised t.reverse e ↔ Raised t e := by
+  unfold Raised
+  simp
+
+theorem verdict_of_live {t : Trace} {m : St} (v : Nat) (h : Live m) : verdict t m (.ret v) = true := by
+  simp [verdict, h.aborted, h.cancelled, h.bad]
+
+theorem verdict_of_fin {cfg : Cfg} {e : Exn} {w : World} (h : Fin cfg e w) :
+    verdict w.trace.reverse (cur cfg w.trace) (.raised e) = true := by
+  obtain ⟨h1, h2, h3⟩ := h
+  unfold verdict
+  cases hc : (cur cfg w.trace).cancelled with
+  | some c =>
+    obtain ⟨rfl, _⟩ := h2 c hc
+    simp [h1]
+  | none =>
+    cases ha : (cur cfg w.trace).aborted with
+    | false => simp [h1]
+    | true =>
+      have := h3 ha hc
+      simp only [h1, Bool.not_false, Bool.true_and, Option.isNone_none, Bool.and_self, if_true,
+        Bool.or_eq_true, beq_iff_eq, raisedBy_iff, raised_reverse]
+      rcases this with h | h | h
+      · exact Or.inl (Or.inl h)
+      · exact Or.inl (Or.inr h)
+      · exact Or.inr h
+
+theorem verdict_of_finO {cfg : Cfg} {o : Outcome} {w : World} (tl : List TimelineEv) (h : FinO cfg o w) :
+    verdict w.trace.reverse (cur cfg w.trace) (.outcome o tl) = true := by
+  obtain ⟨h1, h2, h3⟩ := h
+  unfold verdict
+  cases ha : (cur cfg w.trace).aborted with
+  | false => simp [h1, h2]
+  | true => simp [h1, h2, h3 ha]
+
+/-- the world `runEntry` starts a call from -/
+def startWorld (w : World) : World := { w with trace := [], timeline := [], opCalls := 0 }
+
+theorem live_start (cfg : Cfg) (w : World) : LiveW cfg (startWorld w) := ⟨rfl, rfl, rfl⟩
+
+/--
+**C13.**  For every configuration, every entry point (`Retry`/`Policy` × `call`/`execute`, with or
+without a retry component; the async twins, `RetryPolicy`, contexts and `@retry` are these by argument
+forwarding) and every world — every answer stream (any outcome sequence, any callback raising anything
+at any invocation, `abort_if` answering True at any poll index, a cancellation-type exception at any
+attempt or sleep), every clock value, every state of a shared budget or breaker — the run satisfies
+the abort/cancellation monitor:
+
+* when `abort_if` is given it is polled before every invocation of the operation and before every
+  backoff sleep (since the previous invocation / sleep);
+* once a poll answered True or the operation raised `AbortRetryError`, the operation is not invoked
+  again and no sleep is started, and the call ends with `AbortRetryError` / an ABORTED outcome (or
+  with the error some *other* callback raised afterwards);
+* once the operation or a sleep raised CancelledError / KeyboardInterrupt / SystemExit /
+  GeneratorExit, nothing but breaker bookkeeping follows (no classification, retry, sleep, hook or
+  event) and the call raises exactly that exception.
+-/
+theorem abort_cancel_hold (cfg : Cfg) (e : Entry) (w : World) :
+    Mon.C13.ok cfg e (runEntry cfg e w).2.trace.reverse (runEntry cfg e w).1 = true := by
+  unfold Mon.C13.ok
+  rw [run_reverse]
+  cases e with
+  | call =>
+    have := adequacy (runCall_spec cfg) (startWorld w) (live_start cfg w)
+    simp only [runEntry, startWorld] at this ⊢
+    split at this <;> rename_i heq <;> simp only [heq, toRes]
+    · exact verdict_of_live _ this
+    · exact verdict_of_fin this
+  | execute =>
+    have := adequacy (runExecute_spec cfg) (startWorld w) (live_start cfg w)
+    simp only [runEntry, startWorld] at this ⊢
+    split at this <;> rename_i heq <;> simp only [heq, toResO]
+    · exact verdict_of_finO _ this
+    · exact verdict_of_fin this
+  | pcall =>
+    cases hret : cfg.hasRetry with
+    | false =>
+      have := adequacy (call_nr_spec cfg hret) (startWorld w) (live_start cfg w)
+      simp only [runEntry, startWorld] at this ⊢
+      split at this <;> rename_i heq <;> simp only [heq, toRes]
+      · exact verdict_of_live _ this
+      · exact verdict_of_fin this
+    | true =>
+      have := adequacy (call_retry_spec cfg hret) (startWorld w) (live_start cfg w)
+      simp only [runEntry, startWorld] at this ⊢
+      split at this <;> rename_i heq <;> simp only [heq, toRes]
+      · exact verdict_of_live _ this
+      · exact verdict_of_fin this
+  | pexecute =>
+    cases hret : cfg.hasRetry with
+    | false =>
+      have := adequacy (execute_nr_spec cfg hret) (startWorld w) (live_start cfg w)
+      simp only [runEntry, startWorld] at this ⊢
+      split at this <;> rename_i heq <;> simp only [heq, toResO]
+      · exact verdict_of_finO _ this
+      · exact verdict_of_fin this
+    | true =>
+      have := adequacy (execute_retry_spec cfg hret) (startWorld w) (live_start cfg w)
+      simp only [runEntry, startWorld] at this ⊢
+      split at this <;> rename_i heq <;> simp only [heq, toResO]
+      · exact verdict_of_finO _ this
+      · exact verdict_of_fin this
+
+
+/-- …and therefore of every call in every script of calls and clock advances on ONE policy object. -/
+theorem abort_cancel_hold_script (cfg : Cfg) : ∀ (steps : List Step) (w : World),
+    ∀ l ∈ (runScript cfg steps w).1, Mon.C13.ok cfg l.entry l.trace l.res = true := by
+  intro steps
+  induction steps with
+  | nil => intro w l hl; simp [runScript] at hl
+  | cons st rest ih =>
+    intro w l hl
+    cases st with
+    | advance d => exact ih _ l (by simpa [runScript] using hl)
+    | run e =>
+      simp only [runScript, List.mem_cons] at hl
+      rcases hl with rfl | hl
+      · exact abort_cancel_hold cfg e w
+      · exact ih _ l hl
+
+/-! ### the conjuncts, read off the accepted log -/
+
+theorem run_append (cfg : Cfg) (p q : Trace) : run cfg (p ++ q) = q.foldl (step cfg) (run cfg p) := by
+  simp [run, List.foldl_append]
+
+theorem bad_step (cfg : Cfg) (s : St) (x : Req × Ans) (h : (step cfg s x).bad = false) : s.bad = false := by
+  obtain ⟨r, a⟩ := x
+  cases hb : s.bad with
+  | false => rfl
+  | true =>
+    exfalso
+    revert h
+    cases r <;> simp [step, hb] <;> (repeat' split) <;> simp_all
+
+theorem bad_fold (cfg : Cfg) (q : Trace) : ∀ s, (q.foldl (step cfg) s).bad = false → s.bad = false := by
+  induction q with
+  | nil => exact fun _ h => h
+  | cons x q ih => exact fun s h => bad_step cfg s x (ih _ h)
+
+/-- the monitor state before the exchange `x` of an accepted log `p ++ x :: q` is not `bad`, and
+    neither is the state after it -/
+theorem bad_at (cfg : Cfg) (p q : Trace) (x : Req × Ans) (h : (run cfg (p ++ x :: q)).bad = false) :
+    (step cfg (run cfg p) x).bad = false := by
+  rw [run_append] at h
+  exact bad_fold cfg q _ h
+
+/-- a poll since the last attempt / sleep (newest-first log) -/
+def PolledSince (tr : List (Req × Ans)) : Prop :=
+  ∃ p2 a p1, tr = p2 ++ (Req.abortIf, a) :: p1 ∧ ∀ y ∈ p2, isOp y.1 = false ∧ isSleeper y.1 = false
+
+theorem polled_iff (cfg : Cfg) (tr : List (Req × Ans)) :
+    (cur cfg tr).polled = true ↔ PolledSince tr := by
+  induction tr with
+  | nil => simp [cur, PolledSince]
+  | cons x tr ih =>
+    obtain ⟨r, a⟩ := x
+    rw [cur_cons]
+    by_cases hr : r = .abortIf
+    · subst hr
+      have : (step cfg (cur cfg tr) (Req.abortIf, a)).polled = true := by
+        simp only [step]; (repeat' split) <;> simp_all
+      simp only [this, true_iff]
+      exact ⟨[], a, tr, rfl, by simp⟩
+    · by_cases ho : isOp r = true ∨ isSleeper r = true
+      · have : (step cfg (cur cfg tr) (r, a)).polled = false := by
+          cases r <;> simp_all [step, isOp, isSleeper] <;> (repeat' split) <;> simp_all
+        simp only [this, Bool.false_eq_true, false_iff]
+        rintro ⟨p2, a', p1, he, hall⟩
+        cases p2 with
+        | nil => simp at he; exact hr he.1.1
+        | cons y p2 =>
+          simp at he
+          have := hall y (by simp)
+          rw [← he.1] at this
+          simp at this
+          rcases ho with ho | ho <;> simp_all
+      · have hk : (step cfg (cur cfg tr) (r, a)).polled = (cur cfg tr).polled := by
+          cases r <;> simp_all [step, isOp, isSleeper] <;> (repeat' split) <;> simp_all
+        rw [hk, ih]
+        constructor
+        · rintro ⟨p2, a', p1, he, hall⟩
+          refine ⟨(r, a) :: p2, a', p1, by simp [he], ?_⟩
+          intro y hy
+          rcases List.mem_cons.mp hy with rfl | hy
+          · simpa using ho
+          · exact hall y hy
+        · rintro ⟨p2, a', p1, he, hall⟩
+          cases p2 with
+          | nil => simp at he; exact absurd he.1.1 hr
+          | cons y p2 =>
+            simp at he
+            exact ⟨p2, a', p1, he.2, fun z hz => hall z (by simp [hz])⟩
+
+/-- an abort signal: the predicate answered True, or the operation raised `AbortRetryError` -/
+def AbortSignal (y : Req × Ans) : Prop :=
+  (y.1 = .abortIf ∧ ∃ d, y.2 = .bool true d) ∨
+  (isOp y.1 = true ∧ ∃ e d, y.2 = .raise e d ∧ e.isAbort = true)
+
+theorem aborted_step (cfg : Cfg) (s : St) (x : Req × Ans) :
+    (step cfg s x).aborted = true ↔ s.aborted = true ∨ AbortSignal x := by
+  obtain ⟨r, a⟩ := x
+  unfold AbortSignal
+  cases r <;> simp [step, isOp] <;> (repeat' split) <;> simp_all
+
+theorem aborted_iff (cfg : Cfg) (tr : List (Req × Ans)) :
+    (cur cfg tr).aborted = true ↔ ∃ y ∈ tr, AbortSignal y := by
+  induction tr with
+  | nil => simp [cur]
+  | cons x tr ih =>
+    rw [cur_cons, aborted_step, ih]
+    simp only [List.mem_cons, exists_eq_or_imp]
+    exact Or.comm
+
+theorem isRecord_step (cfg : Cfg) (s : St) (x : Req × Ans) (h : isRecord x.1 = true) : step cfg s x = s := by
+  obtain ⟨r, a⟩ := x
+  cases r <;> simp_all [isRecord, step] <;> (split <;> simp_all)
+
+theorem bad_of_cancelled (cfg : Cfg) (s : St) (x : Req × Ans) (c : Exn) (hc : s.cancelled = some c)
+    (hr : isRecord x.1 = false) : (step cfg s x).bad = true := by
+  obtain ⟨r, a⟩ := x
+  cases r <;> simp_all [isRecord, step] <;> (repeat' split) <;> simp_all
+
+/-- once a cancellation has been seen, an accepted log continues with breaker bookkeeping only -/
+theorem after_cancel (cfg : Cfg) (c : Exn) (q : Trace) : ∀ s, s.cancelled = some c →
+    (q.foldl (step cfg) s).bad = false →
+    (∀ y ∈ q, isRecord y.1 = true) ∧ (q.foldl (step cfg) s).cancelled = some c := by
+  induction q with
+  | nil => exact fun s hc _ => ⟨by simp, hc⟩
+  | cons x q ih =>
+    intro s hc hb
+    cases hr : isRecord x.1 with
+    | false =>
+      have := bad_fold cfg q _ hb
+      rw [bad_of_cancelled cfg s x c hc hr] at this
+      cases this
+    | true =>
+      simp only [List.foldl_cons, isRecord_step cfg s x hr] at hb ⊢
+      obtain ⟨h1, h2⟩ := ih s hc hb
+      exact ⟨by simpa [hr] using h1, h2⟩
+
+theorem cancel_step (cfg : Cfg) (s : St) (x : Req × Ans) (e : Exn) (d : Nat)
+    (hx : isOp x.1 = true ∨ isSleeper x.1 = true) (ha : x.2 = .raise e d) (hk : e.isCancelKind = true) :
+    (step cfg s x).cancelled = some e := by
+  obtain ⟨r, a⟩ := x
+  have hab := isCancelKind_not_abort hk
+  simp only at ha
+  subst ha
+  cases r <;> simp_all [step, isOp, isSleeper]
+
+/-- what acceptance by the monitor means -/
+def Accepted (cfg : Cfg) (t : Trace) (r : Res) : Prop := verdict t (run cfg t) r = true
+
+theorem Accepted.bad {cfg : Cfg} {t : Trace} {r : Res} (h : Accepted cfg t r) : (run cfg t).bad = false := by
+  unfold Accepted verdict at h
+  simp only [Bool.and_eq_true, Bool.not_eq_true'] at h
+  exact h.1.1
+
+/-- **`abort_if` is consulted before every attempt**: in an accepted log, between an invocation of the
+    operation and the previous invocation or sleep (or the start of the call) there is a poll. -/
+theorem poll_before_every_attempt {cfg : Cfg} {t : Trace} {r : Res} (h : Accepted cfg t r)
+    (hab : cfg.abortIf = true) (p q : Trace) (x : Req × Ans) (ht : t = p ++ x :: q)
+    (hx : isOp x.1 = true) : PolledSince p.reverse := by
+  have hb := bad_at cfg p q x (ht ▸ h.bad)
+  rw [← polled_iff cfg, ← run_reverse, List.reverse_reverse]
+  obtain ⟨rq, a⟩ := x
+  cases rq <;> simp_all [isOp, step]
+  revert hb
+  (repeat' split) <;> simp_all
+
+/-- **…and before every backoff sleep** -/
+theorem poll_before_every_sleep {cfg : Cfg} {t : Trace} {r : Res} (h : Accepted cfg t r)
+    (hab : cfg.abortIf = true) (p q : Trace) (x : Req × Ans) (ht : t = p ++ x :: q)
+    (hx : isSleeper x.1 = true) : PolledSince p.reverse := by
+  have hb := bad_at cfg p q x (ht ▸ h.bad)
+  rw [← polled_iff cfg, ← run_reverse, List.reverse_reverse]
+  obtain ⟨rq, a⟩ := x
+  cases rq <;> simp_all [isSleeper, step]
+  revert hb
+  (repeat' split) <;> simp_all
+
+/-- **once aborted, the operation is not invoked again and no sleep is started** -/
+theorem nothing_after_abort {cfg : Cfg} {t : Trace} {r : Res} (h : Accepted cfg t r)
+    (p q : Trace) (x : Req × Ans) (ht : t = p ++ x :: q)
+    (hx : isOp x.1 = true ∨ isSleeper x.1 = true) : ¬ ∃ y ∈ p, AbortSignal y := by
+  have hb := bad_at cfg p q x (ht ▸ h.bad)
+  intro hy
+  have : (run cfg p).aborted = true := by
+    rw [← List.reverse_reverse p, run_reverse, aborted_iff]
+    simpa using hy
+  obtain ⟨rq, a⟩ := x
+  cases rq <;> simp_all [isOp, isSleeper, step] <;> (revert hb; (repeat' split) <;> simp_all)
+
+/-- a cancellation signal: the operation or a sleep raised CancelledError / KeyboardInterrupt /
+    SystemExit / GeneratorExit -/
+def CancelSignal (y : Req × Ans) : Prop :=
+  (isOp y.1 = true ∨ isSleeper y.1 = true) ∧ ∃ e d, y.2 = .raise e d ∧ e.isCancelKind = true
+
+theorem cancelled_step (cfg : Cfg) (s : St) (x : Req × Ans) :
+    (step cfg s x).cancelled ≠ none ↔ s.cancelled ≠ none ∨ CancelSignal x := by
+  obtain ⟨r, a⟩ := x
+  unfold CancelSignal
+  cases r <;> simp [step, isOp, isSleeper] <;> (repeat' split) <;> simp_all
+  all_goals (rename_i h _ _ _; exact isAbort_not_cancelKind h)
+
+theorem cancelled_iff (cfg : Cfg) (tr : List (Req × Ans)) :
+    (cur cfg tr).cancelled ≠ none ↔ ∃ y ∈ tr, CancelSignal y := by
+  induction tr with
+  | nil => simp [cur]
+  | cons x tr ih =>
+    rw [cur_cons, cancelled_step, ih]
+    simp only [List.mem_cons, exists_eq_or_imp]
+    exact Or.comm
+
+/-- **…and the run ends with `AbortRetryError` or an ABORTED outcome** (unless a cancellation
+    intervened, or an error raised by some other callback — a hook, the classifier — after the abort;
+    `.stuck` is the model's "ill-shaped answer stream") -/
+theorem abort_ends_aborted {cfg : Cfg} {t : Trace} {r : Res} (h : Accepted cfg t r)
+    (ha : ∃ y ∈ t, AbortSignal y) (hc : ¬ ∃ y ∈ t, CancelSignal y) :
+    match r with
+    | .raised e => e.isAbort = true ∨ e = .stuck ∨ Raised t e
+    | .outcome o _ => o.stop = some .aborted
+    | .ret _ => False := by
+  have h1 : (run cfg t).aborted = true := by
+    rw [← List.reverse_reverse t, run_reverse, aborted_iff]
+    simpa using ha
+  have h2 : (run cfg t).cancelled = none := by
+    have := mt (cancelled_iff cfg t.reverse).mp (by simpa using hc)
+    rw [← List.reverse_reverse t, run_reverse]
+    simpa using this
+  unfold Accepted verdict at h
+  simp only [h1, h2, Option.isNone_none, Bool.and_self, if_true, Bool.and_eq_true] at h
+  have h3 := h.2
+  cases r with
+  | ret v => simp at h3
+  | outcome o tl => simpa using h3
+  | raised e =>
+    simp only [Bool.or_eq_true, beq_iff_eq, raisedBy_iff] at h3
+    rcases h3 with (h3 | h3) | h3
+    · exact Or.inl h3
+    · exact Or.inr (Or.inl h3)
+    · exact Or.inr (Or.inr h3)
+
+/-- **CancelledError, KeyboardInterrupt, SystemExit (and GeneratorExit) raised by the operation or
+    during a sleep propagate unchanged at once**: the call raises exactly that exception, and nothing
+    follows in the log but breaker bookkeeping (no classification, no retry, no sleep, no hook, no event). -/
+theorem cancellation_propagates_unchanged {cfg : Cfg} {t : Trace} {r : Res} (h : Accepted cfg t r)
+    (p q : Trace) (x : Req × Ans) (ht : t = p ++ x :: q) (e : Exn) (d : Nat)
+    (hx : isOp x.1 = true ∨ isSleeper x.1 = true) (ha : x.2 = .raise e d)
+    (hk : e.isCancelKind = true) :
+    r = .raised e ∧ ∀ y ∈ q, isRecord y.1 = true := by
+  have hb := h.bad
+  subst ht
+  rw [run_append] at hb
+  simp only [List.foldl_cons] at hb
+  have hc := cancel_step cfg (run cfg p) x e d hx ha hk
+  obtain ⟨h1, h2⟩ := after_cancel cfg e q _ hc hb
+  refine ⟨?_, h1⟩
+  unfold Accepted verdict at h
+  rw [run_append] at h
+  simp only [List.foldl_cons, h2, Bool.and_eq_true] at h
+  simpa using h.1.2
+
+
+/-- every run of the model is accepted: the conjuncts above apply to it -/
+theorem run_accepted (cfg : Cfg) (e : Entry) (w : World) :
+    Accepted cfg (runEntry cfg e w).2.trace.reverse (runEntry cfg e w).1 :=
+  abort_cancel_hold cfg e w
+
+instance (cfg : Cfg) (t : Trace) (r : Res) : Decidable (Accepted cfg t r) := by
+  unfold Accepted; infer_instance
+
+/-- a sample log: two attempts, a sleep, a poll before each of them -/
+def sampleLog : Trace :=
+  [(.abortIf, .bool false 0), (.op 1, .raise (.ordinary 1 .transient) 3),
+   (.abortIf, .bool false 0), (.classify "o1", .klass ⟨.transient, none⟩ 0), (.abortIf, .bool false 0),
+   (.sleeper .dflt 7, .unit 7), (.abortIf, .bool false 0), (.op 2, .value 42 1)]
+
+/-- non-vacuity of the hypotheses of `poll_before_every_attempt` / `poll_before_every_sleep` -/
+example : Accepted { abortIf := true } sampleLog (.ret 42) ∧
+    sampleLog = sampleLog.take 7 ++ (.op 2, .value 42 1) :: [] ∧
+    sampleLog = sampleLog.take 5 ++ (.sleeper .dflt 7, .unit 7) :: sampleLog.drop 6 := by
+  refine ⟨by decide, rfl, rfl⟩
+
+/-- non-vacuity: abort signals and cancellation signals exist and occur in accepted logs -/
+example :
+    Accepted { abortIf := true } [(.abortIf, .bool true 0)] (.raised .libAbort) ∧
+    AbortSignal (.abortIf, .bool true 0) ∧
+    Accepted { abortIf := true }
+      [(.abortIf, .bool false 0), (.op 1, .raise .keyboardInterrupt 0), (.breakerCancel, .recorded none .closed)]
+      (.raised .keyboardInterrupt) ∧
+    CancelSignal (.op 1, .raise .keyboardInterrupt 0) := by
+  refine ⟨by decide, Or.inl ⟨rfl, 0, rfl⟩, by decide, ⟨Or.inl rfl, _, _, rfl, rfl⟩⟩
+
+/-- the monitor has teeth: an attempt without a poll, an attempt after an abort, a swallowed
+    cancellation and a retried one are all rejected -/
+example :
+    ¬ Accepted { abortIf := true } [(.op 1, .value 1 0)] (.ret 1) ∧
+    ¬ Accepted { abortIf := true } [(.abortIf, .bool true 0), (.op 1, .value 1 0)] (.ret 1) ∧
+    ¬ Accepted {} [(.op 1, .raise .cancelled 0)] (.ret 1) ∧
+    ¬ Accepted {} [(.op 1, .raise .cancelled 0), (.classify "cancelled", .klass ⟨.unknown, none⟩ 0)]
+        (.raised .cancelled) := by
+  refine ⟨by decide, by decide, by decide, by decide⟩
 
 end Redress.Props.C13
